@@ -17,10 +17,17 @@ Variable decode : list name -> bytes -> list ent.
 Variable ent_bases : ent -> list name.      (* base names stored in a definition (empty except for aliases) *)
 Variable is_empty : bytes -> bool.          (* `if not data: return` *)
 Variable empty_bytes : bytes.
+(** how _parse_block turns the stored base names into definitions: [true] = `self.get_ent(base)` (decodes the
+    base's block on demand), [false] = a look-up in `self.ent_map` that only succeeds for entries that are
+    already decoded (read from the source by translate/c16_fgd.py: [lazy_via_get_ent]) *)
+Variable via_get_ent : bool.
 
 Definition block : Type := (list name * bytes)%type.
 Inductive slot := Parsed (e : ent) | InBlock (i : nat).
-Record db := mkdb { emap : list (name * slot); unparsed : list block; oof : bool }.
+(** [rbases]: for every decoded definition with stored base names, what each name was replaced by when its
+    block was decoded (`ent.bases = [...]`): [Some e] = the definition object of the base, [None] = left as a name *)
+Record db := mkdb { emap : list (name * slot); unparsed : list block; oof : bool;
+                    rbases : list (name * list (option ent)) }.
 
 Fixpoint lookup (c : name) (m : list (name * slot)) : option slot :=
   match m with [] => None | (k, v) :: r => if name_eqb k c then Some v else lookup c r end.
@@ -42,6 +49,25 @@ Definition get_ent_with (pb : db -> nat -> db) (d : db) (c : name) : option ent 
   | None => (None, d)
   end.
 
+Definition peek (d : db) (c : name) : option ent :=
+  match lookup c (emap d) with Some (Parsed e) => Some e | _ => None end.
+Definition add_rec (d : db) (x : name * list (option ent)) : db :=
+  mkdb (emap d) (unparsed d) (oof d) (x :: rbases d).
+
+(** the list comprehension over `ent.bases` *)
+Fixpoint resolve_list (pb : db -> nat -> db) (d : db) (bs : list name) : list (option ent) * db :=
+  match bs with
+  | [] => ([], d)
+  | b :: r => let '(x, d1) := if via_get_ent then get_ent_with pb d b else (peek d b, d) in
+              let '(xs, d2) := resolve_list pb d1 r in (x :: xs, d2)
+  end.
+(** one round of `for ent in apply_bases:` (`if ent.bases: apply_bases.append(ent)`) *)
+Definition resolve_ent (pb : db -> nat -> db) (d : db) (ce : name * ent) : db :=
+  match ent_bases (snd ce) with
+  | [] => d
+  | bs => let '(rb, d') := resolve_list pb d bs in add_rec d' (fst ce, rb)
+  end.
+
 (** EngineDB._parse_block *)
 Fixpoint parse_block (fuel : nat) (d : db) (i : nat) : db :=
   match nth_error (unparsed d) i with
@@ -49,12 +75,12 @@ Fixpoint parse_block (fuel : nat) (d : db) (i : nat) : db :=
   | Some (classes, data) =>
       if is_empty data then d
       else match fuel with
-           | O => mkdb (emap d) (unparsed d) true
+           | O => mkdb (emap d) (unparsed d) true (rbases d)
            | S f =>
                let ents := decode classes data in
                let d1 := mkdb (combine classes (map Parsed ents) ++ emap d)
-                              (set_nth i ([], empty_bytes) (unparsed d)) (oof d) in
-               fold_left (fun d' b => snd (get_ent_with (parse_block f) d' b)) (flat_map ent_bases ents) d1
+                              (set_nth i ([], empty_bytes) (unparsed d)) (oof d) (rbases d) in
+               fold_left (resolve_ent (parse_block f)) (combine classes ents) d1
            end
   end.
 
@@ -67,6 +93,18 @@ Fixpoint run_queries (fuel : nat) (d : db) (qs : list name) : list (option ent) 
   | c :: r => let '(x, d') := get_ent fuel d c in let '(xs, d'') := run_queries fuel d' r in (x :: xs, d'')
   end.
 
+(** the same, observing also what the bases of the answer were replaced by *)
+Fixpoint rassoc (c : name) (l : list (name * list (option ent))) : option (list (option ent)) :=
+  match l with [] => None | (k, v) :: r => if name_eqb k c then Some v else rassoc c r end.
+Definition rb_of (d : db) (c : name) : list (option ent) := match rassoc c (rbases d) with Some rb => rb | None => [] end.
+Definition get_full (fuel : nat) (d : db) (c : name) : option (ent * list (option ent)) * db :=
+  let '(x, d') := get_ent fuel d c in (option_map (fun e => (e, rb_of d' c)) x, d').
+Fixpoint run_full (fuel : nat) (d : db) (qs : list name) : list (option (ent * list (option ent))) * db :=
+  match qs with
+  | [] => ([], d)
+  | c :: r => let '(x, d') := get_full fuel d c in let '(xs, d'') := run_full fuel d' r in (x :: xs, d'')
+  end.
+
 (** EngineDB.get_fgd: decode every block that still has data *)
 Definition parse_all (fuel : nat) (d : db) : db :=
   fold_left (fun d' i => parse_block fuel d' i) (seq 0 (length (unparsed d))) d.
@@ -77,7 +115,7 @@ Fixpoint init_map (i : nat) (bs : list block) : list (name * slot) :=
   | [] => []
   | (cs, _) :: r => map (fun c => (c, InBlock i)) cs ++ init_map (S i) r
   end.
-Definition init (bs : list block) : db := mkdb (init_map 0 bs) bs false.
+Definition init (bs : list block) : db := mkdb (init_map 0 bs) bs false [].
 
 (** what the file says: the definition of a class is the entry at its position in its block *)
 Fixpoint assoc (c : name) (l : list (name * ent)) : option ent :=
